@@ -318,10 +318,43 @@ func ruleComparersConsultTheirData(c *core.Ctx) {
 		if !hasNilReturn {
 			continue
 		}
-		// conditions enclosing a node: if conditions, for conditions, range expressions, switch tags / case expressions
-		enclosing := func(n ast.Node) []ast.Expr {
+		// conditions enclosing a node: if conditions, for conditions, range expressions, switch tags / case expressions;
+		// and, for every block on the way up, the conditions under which an EARLIER statement of that block returns
+		// (control reaches the node only when those returns were not taken)
+		var enclosing func(n ast.Node) []ast.Expr
+		enclosing = func(n ast.Node) []ast.Expr {
 			var out []ast.Expr
-			for cur := parent[n]; cur != nil; cur = parent[cur] {
+			child := n
+			for cur := parent[n]; cur != nil; child, cur = cur, parent[cur] {
+				if blk, ok := cur.(*ast.BlockStmt); ok {
+					for _, sib := range blk.List {
+						if ast.Node(sib) == child {
+							break
+						}
+						ast.Inspect(sib, func(m ast.Node) bool {
+							if _, isLit := m.(*ast.FuncLit); isLit {
+								return false
+							}
+							if r, ok := m.(*ast.ReturnStmt); ok {
+								for up := parent[r]; up != nil && up != ast.Node(blk); up = parent[up] {
+									switch s := up.(type) {
+									case *ast.IfStmt:
+										out = append(out, s.Cond)
+									case *ast.ForStmt:
+										if s.Cond != nil {
+											out = append(out, s.Cond)
+										}
+									case *ast.RangeStmt:
+										out = append(out, s.X)
+									case *ast.CaseClause:
+										out = append(out, s.List...)
+									}
+								}
+							}
+							return true
+						})
+					}
+				}
 				switch s := cur.(type) {
 				case *ast.IfStmt:
 					out = append(out, s.Cond)
@@ -352,6 +385,31 @@ func ruleComparersConsultTheirData(c *core.Ctx) {
 				work = work[:len(work)-1]
 				ast.Inspect(e, func(n ast.Node) bool {
 					switch x := n.(type) {
+					case *ast.CallExpr:
+						// the change object handed to a predicate of the module: the fields that predicate reads count
+						if f := core.Callee(info, x); f != nil && core.InModule(f) {
+							if cd := c.Decl(f.Origin()); cd != nil && cd.Body != nil {
+								cinfo := c.DeclPkg(cd).TypesInfo
+								prms := paramObjs(cinfo, cd)
+								for i, a := range x.Args {
+									o := identObj(info, a)
+									if o == nil || changeVars[o] == nil || i >= len(prms) || prms[i] == nil {
+										continue
+									}
+									for _, fd := range declsCalledInPkg(c, cd, 1) {
+										finfo := c.DeclPkg(fd).TypesInfo
+										ast.Inspect(fd.Body, func(m ast.Node) bool {
+											if se, ok := m.(*ast.SelectorExpr); ok {
+												if po := identObj(finfo, se.X); po != nil && (po == prms[i] || (fd != cd && core.NamedOf(po.Type()) != nil && core.NamedOf(po.Type()) == core.NamedOf(prms[i].Type()))) {
+													fields[o.Name()+"."+se.Sel.Name] = true
+												}
+											}
+											return true
+										})
+									}
+								}
+							}
+						}
 					case *ast.SelectorExpr:
 						if o := identObj(info, x.X); o != nil && changeVars[o] != nil {
 							fields[o.Name()+"."+x.Sel.Name] = true
